@@ -11,8 +11,16 @@ Property: arenas bound concurrency, give unique slots, respect the worker budget
   (`gc_active_is_min`, `gc_applied_is_active`),
 * the slot protocol: for any number of threads, any schedule, occupied slots have pairwise distinct owners, indices
   below `num_slots`, reserved slots only non-workers, hence at most `num_slots` threads inside (`slots_unique`, `slots_bound`).
-Not covered by theorems here (see the evidence file): isolation filters, observer entry/exit pairing, the transient
-per-arena overshoot of `try_join` (DESIGN.md §3 C16).
+* isolation: with the filters, isolation-argument chains and tag assignments *regenerated from the source*, a dispatch loop that
+  waits inside an isolation region only ever executes tasks spawned in that region, nothing is lost or duplicated by skipping,
+  skipped tasks stay physically available, and a thread without isolation is refused by no filter (`isolation_*`),
+* mandatory concurrency: under every interleaving of `advertise_new_work` / `out_of_work` / leaving threads the arena's, the
+  market's and the serializer's mandatory counters (plus the deltas in flight) equal the mandatory flag; at rest they are 1 iff the
+  flag is set; `out_of_work` with no enqueued task left withdraws the request on every path (`mandatory_*`),
+* scheduler observers: per thread and observer, entries and exits alternate, every entry of a still active observer gets its
+  exit when the thread leaves (`observer_balanced`).
+Not covered by theorems here (see the evidence file): the transient per-arena overshoot of `try_join`, the resume stream,
+bypassed tasks and the re-spawn of a stolen task when a critical task is found (DESIGN.md §3 C16).
 -/
 import TbbVerif.Proofs.C16.Allot
 import TbbVerif.Proofs.C16.Serializer
@@ -20,6 +28,10 @@ import TbbVerif.Proofs.C16.Pending
 import TbbVerif.Proofs.C16.GC
 import TbbVerif.Proofs.C16.Slots
 import TbbVerif.Proofs.C16.World
+import TbbVerif.Proofs.C16.IsoInv
+import TbbVerif.Proofs.C16.IsoCons
+import TbbVerif.Proofs.C16.Mand
+import TbbVerif.Proofs.C16.Obs
 
 namespace TbbVerif.C16
 
@@ -307,6 +319,122 @@ theorem slots_bound (cfg : SCfg) (threads : List (Bool × List Nat)) (sched : Li
   rw [hinv.cnt, ← hinv.len]
   exact List.count_le_length
 
+/-! ## isolation (`this_task_arena::isolate`) -/
+
+/-- **isolation_respected.** For every number of slots and every sequence of operations (dispatch loops entered and left,
+`isolate` regions opened and closed — nested at will —, plain / affinitized (proxy + mailbox) / enqueued / critical spawns, idle
+flags, and takes at every take point: own pool, steal from any slot, mailbox, fifo stream, critical stream), each executed task
+`e.task` was taken by a dispatch loop whose isolation word `e.iso` equals the ghost region `e.ghost` the loop waits in, carries
+as tag the ghost region it was spawned in, and — if the loop waits inside a region — was spawned in exactly that region.  The
+filters, the isolation argument handed to each take point and the tags are the generated definitions. -/
+theorem isolation_respected (n : Nat) (ops : List Iso.IOp) :
+    ∀ e ∈ ((Iso.ISt.init n).run ops).log,
+      e.iso = e.ghost ∧ e.task.tag = e.task.region ∧ (e.ghost = 0 ∨ e.task.region = e.ghost) ∧ (e.iso = 0 ∨ e.task.tag = e.iso) := by
+  intro e he
+  have h := ((Iso.G.init n).run ops).log e he
+  refine ⟨h.1, h.2.1, h.2.2, ?_⟩
+  rcases h.2.2 with h0 | h1
+  · left; rw [h.1]; exact h0
+  · right; rw [h.2.1, h.1]; exact h1
+
+/-- **isolation_no_loss.** Skipping loses nothing and duplicates nothing: at every moment the executed tasks together with the
+plain tasks in the pools, the tasks of the unclaimed proxies, the fifo stream and the critical stream are a permutation of the
+tasks ever created (whose ids are pairwise distinct); and every unclaimed proxy is physically present in a pool *and* in a
+mailbox — a task that an isolated thread skipped is still where a thread without isolation finds it. -/
+theorem isolation_no_loss (n : Nat) (ops : List Iso.IOp) :
+    let s := (Iso.ISt.init n).run ops
+    (s.log.map (·.task) ++ ((s.pools.map Iso.plainTasks).flatten ++ Iso.liveTasks s.proxies s.claimed ++ s.fifo ++ s.crit)).Perm s.spawned ∧
+    (s.spawned.map (·.id)).Nodup ∧
+    (∀ p ∈ s.proxies, p.pid ∉ s.claimed →
+      (∃ (i : Nat) (pool : Iso.Pool), s.pools[i]? = some pool ∧ some (Iso.Entry.proxy p) ∈ pool) ∧
+      (∃ (i : Nat) (box : List Iso.PEntry), s.mail[i]? = some box ∧ p ∈ box)) := by
+  intro s
+  have h : Iso.R s := (Iso.R.init n).run ops
+  refine ⟨?_, ?_, h.present⟩
+  · rw [List.perm_iff_count]
+    intro x
+    have hc := h.count x
+    have hp : Iso.poolCount x s.pools = ((s.pools.map Iso.plainTasks).flatten).count x := by
+      rw [List.count_flatten, List.map_map]; rfl
+    simp only [Iso.cnt] at hc
+    simp only [List.count_append]
+    omega
+  · rw [h.ids]; exact List.nodup_range
+
+/-- **isolation_filters_pass_nonisolated.** A thread that is not isolated (isolation word 0) is refused by none of the filters:
+whatever an isolated thread skipped, any non-isolated owner, thief, mailbox owner or stream reader may take. -/
+theorem isolation_filters_pass_nonisolated (tag : Nat) :
+    Generated.C16.isoOwnOmit 0 tag = false ∧ Generated.C16.isoStealOk 0 tag = true ∧
+    (Generated.C16.isoMailGuard 0 && Generated.C16.isoMailSkip 0 tag) = false ∧ Generated.C16.isoFifoOk true 0 = true ∧
+    (!Generated.C16.isoCritSpecific (Generated.C16.isoArgCrit1 0) || Generated.C16.isoCritMatch true (Iso.argCrit 0) tag) = true :=
+  Iso.gen_nonisolated tag
+
+/-! ## mandatory concurrency -/
+
+/-- **mandatory_balanced.** Any number of threads run any programs of `enqueue` / `spawn` / `out_of_work` / fifo pops / leaving
+external threads on one arena, under every schedule (one step per atomic access to the two `atomic_flag` words): the arena's
+`my_mandatory_requests` plus the deltas already decided but not yet delivered equals 1 if the mandatory flag is set (or being
+cleared) and 0 otherwise; the market's count equals the arena's; the same holds for the serializer proxy's counter;
+`min_workers` is 1 exactly when the arena's count is positive; a busy flag always belongs to the thread that is inside its
+`try_clear_if`.  At rest all three counters are 1 iff the flag is set. -/
+theorem mandatory_balanced (cfg : Mand.MCfg) (progs : List (List Mand.Act)) (sched : List Tid) :
+    let s := (Mand.mandSys cfg progs).run sched
+    (s.sh.arena.mandReq + (s.ths.map Mand.inflightMkt).sum = Mand.flagBit s.sh.mand ∧
+     s.sh.marketMand = s.sh.arena.mandReq ∧
+     s.sh.proxyMand + (s.ths.map Mand.inflightSer).sum = Mand.flagBit s.sh.mand ∧
+     s.sh.arena.minW = (if s.sh.arena.mandReq > 0 then 1 else 0)) ∧
+    (s.quiescent →
+      (s.sh.mand = .unset ∨ s.sh.mand = .set) ∧
+      s.sh.arena.mandReq = Mand.flagBit s.sh.mand ∧ s.sh.marketMand = Mand.flagBit s.sh.mand ∧ s.sh.proxyMand = Mand.flagBit s.sh.mand ∧
+      s.sh.arena.minW = (if s.sh.mand = .set then 1 else 0)) := by
+  intro s
+  have h1 := Mand.mand_inv cfg progs sched
+  have h2 := Mand.mand_quiescent cfg progs sched
+  exact ⟨⟨h1.1, h1.2.1, h1.2.2.1, h1.2.2.2.1⟩, fun hq => by
+    have := h2 hq
+    exact ⟨this.1, this.2.2.1, this.2.2.2.1, this.2.2.2.2.1, this.2.2.2.2.2⟩⟩
+
+/-- **mandatory_withdrawn.** From any reachable state at rest in which the mandatory flag is set and no enqueued task is left,
+one `out_of_work()` call (run alone) clears the flag and brings the arena's, the market's and the serializer's mandatory counts
+and `min_workers` back to 0 — whatever `has_tasks()` answers (`ht`: a slot may still hold a spawned task, so that the pool-state
+flag is *not* cleared) and whatever the pool-state flag is. -/
+theorem mandatory_withdrawn (cfg : Mand.MCfg) (progs : List (List Mand.Act)) (sched : List Tid) (t : Nat) (th : Mand.MTh)
+    (ht : Bool) (rest : List Mand.Act) :
+    let s := (Mand.mandSys cfg progs).run sched
+    s.quiescent → s.sh.mand = .set → s.sh.hasEnq = false → s.ths[t]? = some th → th.prog = .oow ht :: rest →
+    ∃ n, n ≤ 10 ∧
+      let s' := (Mand.mandSys cfg progs).runFrom s (List.replicate n t)
+      s'.quiescent ∧ s'.sh.mand = .unset ∧ s'.sh.arena.mandReq = 0 ∧ s'.sh.marketMand = 0 ∧ s'.sh.proxyMand = 0 ∧
+      s'.sh.arena.minW = 0 :=  by
+  intro s hq hm he hth hp
+  obtain ⟨k, hk, h⟩ := Mand.mand_withdrawn cfg progs sched t th ht rest hq hm he hth hp
+  exact ⟨k, hk, h.1, h.2.1, h.2.2.1, h.2.2.2.1, h.2.2.2.2.1, h.2.2.2.2.2.1⟩
+
+/-- **no_worker_without_mandatory.** Under `max_allowed_parallelism = 1` (soft limit 0) an allotment computed while the
+market's mandatory count is 0 grants no worker to any arena: together with `mandatory_withdrawn`, an arena that has run out of
+enqueued work does not keep a worker. -/
+theorem no_worker_without_mandatory {total : Nat} {levels : List (Nat × List Client)} {r : List (List Nat)}
+    (h : allot 0 total 0 levels = some r) : (r.map List.sum).sum = 0 :=
+  (allot_softzero_none h).2 rfl
+
+/-! ## scheduler observers -/
+
+/-- **observer_balanced.** After any sequence of threads joining and leaving the arena (workers, `execute`, thread
+termination), re-notifications in the dispatch loop, and observers being activated and deactivated: on every thread `t` and for
+every observer proxy `p`, exits never exceed entries and at most one entry is outstanding (the calls alternate, starting with an
+entry); a thread that is outside has received an exit for every entry of every observer that is still active; a thread inside
+has exactly one outstanding entry for each active observer its `my_last_observer` covers.  The presence of the notification
+calls on every join / leave path is generated. -/
+theorem observer_balanced (n : Nat) (ops : List Obs.OOp) (t p : Nat) :
+    let s := (Obs.OSt.init n).run ops
+    Obs.exits s.log t p ≤ Obs.entries s.log t p ∧ Obs.entries s.log t p ≤ Obs.exits s.log t p + 1 ∧
+    (s.inside.getD t false = false → s.active.getD p false = true → Obs.entries s.log t p = Obs.exits s.log t p) ∧
+    (s.inside.getD t false = true → s.active.getD p false = true →
+        Obs.entries s.log t p = Obs.exits s.log t p + (if p < s.last.getD t 0 then 1 else 0)) := by
+  intro s
+  have h := Obs.obs_balanced n ops t p
+  exact ⟨h.1, h.2.1, h.2.2.1, h.2.2.2.1⟩
+
 /-! ## non-vacuity -/
 
 /-- three levels, five arenas, limit 5 < demand 11: `WF` holds and the allotment is `[[2],[2,1],[0,0]]`
@@ -344,5 +472,27 @@ example : (({ preferMin := true, dflt := 16 } : GC).run [.create 1 4, .create 2 
 control the code takes `*my_list.begin()`, i.e. the *smallest* remaining value although a larger one is alive. -/
 example : (({ preferMin := false, dflt := 0 } : GC).run [.create 1 4, .create 2 2, .create 3 8, .destroy 2]).active = 4 := by
   decide
+
+/-- isolation: thread 0 spawns a task, opens region 7, spawns a second task and waits: its own-pool scan skips nothing of region 7
+and never returns the outer task; thread 1 (not isolated) steals the outer task -/
+example : (((Iso.ISt.init 2).run [.wait 0, .wait 1, .spawn 0, .isolate 0 7, .spawn 0, .wait 0, .own 0, .own 0, .steal 1 0]).log.map
+    (fun e => (e.thread, e.task.id, e.iso))) = [(0, 1, 7), (1, 0, 0)] := by decide
+
+/-- isolation: a mailed task of region 7 in the mailbox of an isolated thread of region 9 is skipped there and taken by its
+non-isolated sender from the pool handle -/
+example : (((Iso.ISt.init 2).run [.wait 0, .wait 1, .isolate 0 7, .spawnAff 0 1, .isolate 1 9, .wait 1, .mailbox 1, .endIsolate 0,
+    .own 0]).log.map (fun e => (e.thread, e.task.id, e.iso))) = [(0, 0, 0)] := by decide
+
+/-- mandatory concurrency: a worker-less arena (`task_arena(1)`: 2 slots, 1 reserved, no workers); thread 0 enqueues, thread 1 pops the
+task and polls `out_of_work`: request 1, then back to 0 -/
+example : (let s := (Mand.mandSys ⟨2, 1, 0⟩ [[.enqueue], [.popFifo true, .oow false]]).run (List.replicate 9 0)
+    (s.sh.arena.mandReq, s.sh.marketMand, s.sh.proxyMand, s.sh.arena.maxW)) = (1, 1, 1, 1) ∧
+    (let s := (Mand.mandSys ⟨2, 1, 0⟩ [[.enqueue], [.popFifo true, .oow false]]).run (List.replicate 9 0 ++ List.replicate 12 1)
+    (s.sh.arena.mandReq, s.sh.marketMand, s.sh.proxyMand, s.sh.arena.maxW)) = (0, 0, 0, 0) := by decide
+
+/-- observers: thread 0 joins, an observer is activated by it (entry), a second one by thread 1 from outside, thread 0 finds a task
+(entry of the second), the first is deactivated, thread 0 leaves: one exit, for the second observer only -/
+example : ((Obs.OSt.init 2).run [.join 0 .worker, .activate 0, .activate 1, .renotify 0, .deactivate 0, .leave 0 .worker]).log =
+    [(0, 0, true), (0, 1, true), (0, 1, false)] := by decide
 
 end TbbVerif.C16
